@@ -789,6 +789,15 @@ def gen_rtl(rng, quick, k):
     g = Gen(rng, rows, cols, n)
     e = lambda x: x.encode() if isinstance(x, str) else x
     td0 = rng.choice([None, None, 2, 1, -1, -2, -1, -2])
+    if rng.chance(1, 4):
+        # the FIRST line starts with a run shown in the other direction that is wider than the window: the character the cursor
+        # starts on is drawn beyond the window unless the xleft rule runs before the first paint (probe point 0; fix 11b9bf2)
+        wide = lambda ab: ' '.join(word(ab, 3, 6) for _ in range(cols // 4 + 1))[:cols + rng.choice([1, 2, 5, cols // 2 + 1])].rstrip()
+        if td0 == -2:
+            lines[0] = wide('abcdefgh') + ' ' + word(R2L)           # right-to-left context: the Latin run is the reordered one
+        else:
+            td0 = 2
+            lines[0] = wide(R2L)
     opts = []
     if td0 is not None:
         opts.append('se td=%d' % td0)
@@ -1530,36 +1539,10 @@ def classify(case, pr, r, prev):
     """narrow classifiers of the findings recorded in KNOWN_FINDINGS.txt; None = not a known root cause.  No open finding at
     present: the earlier ones (yank columns, empty change, sticky left, failed ex command, hll after deleting through the last
     line, insert mode leaving another xleft, same-count change starting above the window) are repaired in /repo; their inputs are corpus cases that must pass.
-    CANDIDATE (found by the rtl stream, not yet in KNOWN_FINDINGS.txt): KF-STICKY-REORDER -- j / k with a remembered column beyond the
-    end of a line that holds a run shown in the other direction (td=+2, or right-to-left text inside a left-to-right line): the offset is
-    clamped to the LAST character in buffer order, the terminal cursor (ren_cursor of the remembered column) goes to the character at the
-    LARGEST visual position -- two different characters (`se td=2`, lines `abcdefghijkl`, `<Arabic word>`; keys `$ j`, then `x` deletes the
-    character at the other end of the word)."""
-    try:
-        if os.environ.get('C19_NO_CLASSIFY'):
-            return None
-        if pr[0] != 'cmd' or pr[1] == 0 or not r.get('what', '').endswith('terminal cursor not on the cell of the cursor character'):
-            return None
-        last = bytes.fromhex(case['atoms'][pr[1] - 1]).lstrip(DIGITS)
-        if last not in (b'j', b'k'):
-            return None
-        REF.td = r.get('td', 0)
-        buf, xrow, xoff = r['buf'], r['xrow'], r['xoff']
-        line = buf[xrow]
-        lay = layout(line)
-        if visual_order(line) == list(range(len(line))) or xoff != len(line) - 1:
-            return None
-        (woff, h), _ = geometry(case['rows'], r.get('split'), r.get('act'))
-        sv = view(r['st'], woff, h)
-        for left in range(0, maxwidth(buf) + 1):
-            if cell_pos(buf, xrow, sv['c'], left, case['cols']) == max(p for _, p, _ in lay) and render(line, left, case['cols']) == sv['cp'][sv['r']]:
-                return 'KF-STICKY-REORDER'
-    except Exception:
-        return None
+    The ninth and tenth (j / k with a remembered column onto a line with a run shown in the other direction: terminal cursor and acting offset on
+    different characters; the xleft rule not applied before the first paint) were found by the rtl stream and are repaired too (216c15e, 11b9bf2);
+    inputs in corpus/C19-sticky-reorder.json, corpus/C19-initial-left.json."""
     return None
-
-
-CANDIDATE_FINDINGS = ('KF-STICKY-REORDER',)
 
 
 def report(res, exe, model, case, pr, r, prev=None):
@@ -1568,14 +1551,6 @@ def report(res, exe, model, case, pr, r, prev=None):
         small, spr = sub_case(case, pr)
         v = {'what': r['what'], 'input': {'case': small, 'keys': keys_repr(small)}, 'expected': r.get('expected'), 'observed': r.get('observed')}
         if not res.violation(v, kf=kf):
-            return False
-        if kf in CANDIDATE_FINDINGS:
-            # a genuine defect of the unchanged tree found by this module, described in design.d/C19.md, waiting to be listed
-            res.count('finding candidate ' + kf)
-            res.violations.pop()
-            ex = res.extra.setdefault('finding_candidates', [])
-            if len(ex) < 5:
-                ex.append(v)
             return False
     small, spr = shrink_case(exe, model, case, pr, r['what'])
     r2 = eval_probe(exe, model, small, spr)
